@@ -29,29 +29,36 @@ def modelled(text):
 def real_parse(text, limit=10.0):
     """-> (outcome dict, oracle tables)"""
     from bardic.compiler.parsing import core as pcore
-    stmt, call = {}, {}
+    stmt, call, expr = {}, {}, {}
     orig = pyast.parse
 
     def recording(source, *a, **kw):
         mode = kw.get("mode", a[1] if len(a) > 1 else "exec")
         is_call = mode == "eval" and isinstance(source, str) and source.startswith("_temp_(") and source.endswith(")")
+        is_expr = mode == "eval" and isinstance(source, str) and not is_call
         try:
             tree = orig(source, *a, **kw)
         except SyntaxError as e:
             if is_call:
                 call[source[7:-1]] = "syntax"
+            elif is_expr:
+                expr[source] = "bad"
             elif isinstance(source, str):
                 stmt[source] = "syntax:" + (str(e.lineno) if e.lineno else "")
             raise
-        except (MemoryError, RecursionError):
+        except (MemoryError, RecursionError, ValueError):
             if is_call:
                 call[source[7:-1]] = "syntax"      # reported like a syntax error by the argument validator
+            elif is_expr:
+                expr[source] = "bad"
             elif isinstance(source, str):
                 stmt[source] = "complex"
             raise
         if is_call:
             c = tree.body
             call[source[7:-1]] = [len(c.args), [k.arg for k in c.keywords]]
+        elif is_expr:
+            expr[source] = "ok"
         elif isinstance(source, str):
             stmt[source] = "ok"
         return tree
@@ -76,7 +83,7 @@ def real_parse(text, limit=10.0):
     for k, v in list(call.items()):
         if isinstance(v, list):
             v[1] = ["**" if x is None else x for x in v[1]]
-    return out, {"stmt": stmt, "call": call}
+    return out, {"stmt": stmt, "call": call, "expr": expr}
 
 
 def canon(j):
